@@ -176,7 +176,7 @@ def rule_p1(ctx, F):
 def rule_p2(ctx, F):
     fn = ctx.need_fn(F, "ts_parser_parse", "P2")
     if fn:
-        rets = [pt for pt, e in fn.points() if e.get("k") == "ret" and strip(e["e"]).get("k") == "ref" and strip(e["e"])["name"] == "result"]
+        rets = [pt for pt, e in fn.points() if e.get("k") == "ret" and strip(e["e"]).get("k") == "ref" and strip(e["e"])["name"] == bind(fn, "result", "ts_tree_new(...)")]
         rst = [pt for pt, n in find(fn, "ts_parser_reset(self)")]
         ctx.before("P2", "ts_parser_parse:completion-resets", fn, rets, rst, "every completed or failed parse (`return result`) passes ts_parser_reset(self)")
         new_tree = [pt for pt, n in find(fn, "ts_tree_new(...)")]
